@@ -73,6 +73,10 @@ func GetMessageOfEviction(ssn *framework.Session, actionType framework.ActionTyp
 		if reclaimeeQueue.ParentQueue == reclaimerQueue.ParentQueue {
 			queueDetails = getReclaimMessageQueuesDetails(ssn, preempteeTask, preemptorJob,
 				reclaimerQueue, reclaimeeQueue)
+		} else if reclaimerParentQueue == nil || reclaimeeParentQueue == nil {
+			// One of the queues is a top-level queue (no parent): report the queues themselves
+			queueDetails = getReclaimMessageQueuesDetails(ssn, preempteeTask, preemptorJob,
+				reclaimerQueue, reclaimeeQueue)
 		} else {
 			queueDetails = getReclaimMessageQueuesDetails(ssn, preempteeTask, preemptorJob,
 				reclaimerParentQueue, reclaimeeParentQueue)
